@@ -26,6 +26,21 @@ def markLast : List Bs → List Bs
   | [x] => [x ++ s "..."]
   | x :: xs => x :: markLast xs
 
+/-- Is the last argument a number literal? (`CallExpr.String()` parenthesises it before "...": `f(1...)` would scan
+as the float literal `1.` followed by `..`; finding C20-4.) -/
+def lastIsNum : Exprs → Bool
+  | .nil => false
+  | .cons (.int _ _) .nil => true
+  | .cons (.float _ _) .nil => true
+  | .cons _ .nil => false
+  | .cons _ es => lastIsNum es
+
+/-- Parenthesises the last printed argument. -/
+def parenLast : List Bs → List Bs
+  | [] => []
+  | [x] => [s "(" ++ x ++ s ")"]
+  | x :: xs => x :: parenLast xs
+
 def optName : Option Bs → Bs
   | some n => n
   | none => s "<null>"
@@ -55,7 +70,7 @@ mutual
     | .slice e lo hi => printExpr e ++ s "[" ++ printOptExpr lo ++ s ":" ++ printOptExpr hi ++ s "]"
     | .call f args ell =>
       let as := printExprs args
-      printExpr f ++ s "(" ++ join (s ", ") (if ell then markLast as else as) ++ s ")"
+      printExpr f ++ s "(" ++ join (s ", ") (if ell then markLast (if lastIsNum args then parenLast as else as) else as) ++ s ")"
     | .func ps va body => s "func" ++ s "(" ++ join (s ", ") (params ps va) ++ s ")" ++ s " " ++ blockOf (printStmts body)
     | .imp n => s "import(\"" ++ n ++ s "\")"
     | .error e => s "error(" ++ printExpr e ++ s ")"
